@@ -10,7 +10,11 @@ module Hashtbl = Stdlib.Hashtbl
 (* C05 model driver.  Input: the abstract script harness/c05.py derives from a case and the
    implementation's observations (tx groups, mempool queue order, initial oracle store and
    nonces are inputs).  Output: the model's observation lines in the canonical format of c05.py.
-   The ledger is the concrete [cledger] of AbciModel.v (nonces + log of executed tx ids).  The
+   The ledger is the concrete [cledger] of AbciModel.v (nonces, log of executed tx ids, validator
+   set, block time / next validators hash / stored block hash + proposer).  The request fields
+   (height, time, proposer, next validators hash, last commit, misbehavior) are given per block:
+   h= time= prop= nvh= lcround= lcvotes=<val>:<flag>/... misb=<val>,...  `hand ... like=<blk>`
+   defines a near twin: the data of <blk> under other request fields / another hash.  The
    aggregation of vote-extension prices (median per pair, C15's subject) is done here. *)
 open Util
 open AbciModel
@@ -65,6 +69,11 @@ let prices_of_votes (o : ostate) (votes : (int * int) list list) : (BinNums.coq_
     | Some m -> Some (k, n_of_int m)
     | None -> None) !order
 
+(* ProposalHandler::prepare_proposal prunes every vote whose extension carries more prices than
+   there are currency pairs in the state (verify_vote_extension) *)
+let prune_votes (o : ostate) (votes : (int * int) list list) : (int * int) list list =
+  List.filter (fun v -> List.length v <= int_of_n o.o_num) votes
+
 let parse_votes (s : string) : (int * int) list list =
   List.map (fun v ->
     List.map (fun it ->
@@ -90,9 +99,26 @@ let digest_state (s : cledger state) : string =
   Buffer.add_string b "|";
   List.iter (fun i -> Buffer.add_string b (string_of_n i ^ ",")) s.s_l.cl_log;
   Buffer.add_string b ("|" ^ string_of_n s.s_l.cl_height);
+  Buffer.add_string b ("|" ^ string_of_n s.s_l.cl_time ^ "|" ^ string_of_n s.s_l.cl_nvh ^ "|");
+  List.iter (fun (k, v) -> Buffer.add_string b (Printf.sprintf "%s=%s," (string_of_n k) (string_of_n v)))
+    (List.sort compare s.s_l.cl_vals);
+  Buffer.add_string b ("|" ^ string_of_n (fst s.s_l.cl_block) ^ "|" ^ string_of_n (snd s.s_l.cl_block));
   Stdlib.Digest.to_hex (Stdlib.Digest.string (Buffer.contents b))
 
-type blk = { hash : BinNums.coq_N; meta : BinNums.coq_N; data : bdata }
+type blk = { hash : BinNums.coq_N; meta : bmeta; data : bdata }
+
+let pairs_of (sep : char) (s : string) : (BinNums.coq_N * BinNums.coq_N) list =
+  List.map (fun it ->
+    match String.split_on_char ':' it with
+    | [k; v] -> (n_of_string k, n_of_string v)
+    | _ -> failwith ("pair " ^ it)) (split_on sep s)
+
+let meta_of (rest : string list) : bmeta =
+  let opt k d = match kv_opt rest k with Some v -> v | None -> d in
+  { m_height = n_of_string (kv rest "h"); m_time = n_of_string (opt "time" "0");
+    m_proposer = n_of_string (opt "prop" "0"); m_nvh = n_of_string (opt "nvh" "0");
+    m_lc_round = n_of_string (opt "lcround" "0"); m_lc_votes = pairs_of '/' (opt "lcvotes" "-");
+    m_misb = List.map n_of_string (split_on ',' (opt "misb" "-")) }
 
 let run ic oc =
   let apps : (cledger, BinNums.coq_N) app array ref = ref [||] in
@@ -124,7 +150,10 @@ let run ic oc =
           match String.split_on_char ':' it with
           | [k; v] -> (n_of_string k, n_of_string v)
           | _ -> failwith ("init nonce " ^ it)) (split_on ',' (kv rest "nonces")) in
-        let c = { s_l = { cl_nonces = nonces; cl_log = []; cl_height = n_of_string (kv rest "height") };
+        let vals = (match kv_opt rest "vals" with Some v -> pairs_of ',' v | None -> []) in
+        let c = { s_l = { cl_nonces = nonces; cl_log = []; cl_height = n_of_string (kv rest "height");
+                          cl_time = n_of_int 0; cl_nvh = n_of_int 0; cl_vals = vals;
+                          cl_block = (n_of_int 0, n_of_int 0) };
                   s_o = { o_pairs = pairs; o_next = n_of_string (kv rest "next");
                           o_num = n_of_string (kv rest "num") } } in
         apps := Array.init !ninst (fun _ -> c_init c)
@@ -135,20 +164,21 @@ let run ic oc =
         Hashtbl.replace txs id
           { tx_id = n_of_string id; tx_signer = n_of_string (kv rest "signer");
             tx_nonce = n_of_string (kv rest "nonce"); tx_group = n_of_string (kv rest "group");
-            tx_body = n_of_string (kv rest "body"); tx_oacts = oacts }
+            tx_body = n_of_string (kv rest "body"); tx_oacts = oacts;
+            tx_vupd = (match kv_opt rest "vupd" with Some v -> pairs_of '/' v | None -> []) }
     | ("prep" | "hand" as op) :: inst :: name :: rest ->
         let i = int_of_string inst in
         let a = (!apps).(i) in
-        let meta = n_of_string (kv rest "meta") and hash = n_of_string (kv rest "hash") in
+        let meta = meta_of rest and hash = n_of_string (kv rest "hash") in
         let valid = kv rest "valid" = "1" in
-        let votes = parse_votes (kv rest "votes") in
+        let votes = parse_votes (match kv_opt rest "votes" with Some v -> v | None -> "-") in
         let define_or_compare d =
           match Hashtbl.find_opt blocks name with
           | None -> Hashtbl.replace blocks name { hash; meta; data = d }; "def"
           | Some b -> if proposal_eqb (meta, d) (b.meta, b.data) then "1" else "0" in
         if op = "prep" then begin
           let queue = List.map tx_of (split_on ',' (kv rest "queue")) in
-          let prices = if valid then prices_of_votes a.a_committed.s_o votes else [] in
+          let prices = if valid then prices_of_votes a.a_committed.s_o (prune_votes a.a_committed.s_o votes) else [] in
           match do_step i (CPrepare (meta, queue, prices)) with
           | OPrepared d ->
             let m = define_or_compare d in
@@ -156,6 +186,17 @@ let run ic oc =
               (names (List.map txname d.d_txs)) m
           | OErr e -> Printf.fprintf oc "prep %s %s err=%s\n" inst name (class_of_err e)
           | _ -> Printf.fprintf oc "prep %s %s bad\n" inst name
+        end else if kv_opt rest "like" <> None then begin
+          (* near twin: the data of an existing block under other request fields / another hash;
+             the verdict on the extended commit is re-evaluated when the last commit differs *)
+          let base = (match Hashtbl.find_opt blocks (kv rest "like") with
+                      | Some b -> b | None -> failwith ("unknown base block " ^ kv rest "like")) in
+          let same_lc = BinNat.N.eqb base.meta.m_lc_round meta.m_lc_round
+                        && list_eqb price_eqb base.meta.m_lc_votes meta.m_lc_votes in
+          let d = if same_lc then base.data else { base.data with d_ecvalid = valid } in
+          let m = define_or_compare d in
+          Printf.fprintf oc "hand %s %s ok user=%s match=%s\n" inst name
+            (names (List.map txname d.d_txs)) m
         end else begin
           (* hand-built block on a scratch replica: given order, failing txs included, the
              commitments over a lenient dry run of the constructible ones *)
@@ -167,7 +208,8 @@ let run ic oc =
           let (_, ex) = finalize_loop cl_exec (pre_exec cl_pre c meta) checked in
           let commit = List.map (fun (t, _) -> t.tx_id) ex in
           let commit = if bad = "commit" then n_of_int 999999999 :: commit else commit in
-          let prices = if raw || valid then prices_of_votes c.s_o votes else [] in
+          let prices = if raw then prices_of_votes c.s_o votes
+                       else if valid then prices_of_votes c.s_o (prune_votes c.s_o votes) else [] in
           let d = { d_wf = (bad <> "item"); d_ecvalid = (if raw then valid else true);
                     d_prices = prices; d_uh = cl_uh_at meta; d_commit = commit; d_txs = given } in
           (!apps).(i) <- c_init c;
@@ -209,6 +251,9 @@ let run ic oc =
           if not (BinNat.N.eqb v (n_of_int 0)) then
             Printf.fprintf oc "nonce %s %s\n" (string_of_n k) (string_of_n v))
           (List.sort (fun (a, _) (b, _) -> compare (int_of_n a) (int_of_n b)) s.s_l.cl_nonces);
+        List.iter (fun (k, v) -> Printf.fprintf oc "validator %s power=%s\n" (string_of_n k) (string_of_n v))
+          (List.sort (fun (a, _) (b, _) -> compare (int_of_n a) (int_of_n b)) s.s_l.cl_vals);
+        Printf.fprintf oc "valcount %d\n" (List.length s.s_l.cl_vals);
         List.iter (fun (k, ps) ->
           Printf.fprintf oc "oracle %s id=%s nonce=%s %s\n" (string_of_n k) (string_of_n ps.ps_id)
             (string_of_n ps.ps_nonce) (string_of_price ps.ps_price))
